@@ -170,6 +170,12 @@ pub fn receive_cw20(
                 return Err(ContractError::Unauthorized {});
             }
 
+            // the offered asset must be the cw20 token that sent this hook
+            match &offer_asset.info {
+                AssetInfo::Token { contract_addr } if contract_addr == info.sender.as_str() => {}
+                _ => return Err(ContractError::AssetMismatch {}),
+            }
+
             let to_addr = if let Some(to_addr) = to {
                 Some(deps.api.addr_validate(to_addr.as_str())?)
             } else {
